@@ -491,7 +491,8 @@ def replay(d):
             and a not in vlib.ALDOR_BASE_ARGS]
     inp = cr.Input(det.get("input_class", "enum"), det.get("input_name"), bytes(det["source_bytes"]), det.get("certificates", []),
                    det.get("certificates_as_read"), det.get("features", []), args=args,
-                   files={k: bytes(v) for k, v in (det.get("files") or {}).items()})
+                   files={k: bytes(v) for k, v in (det.get("files") or {}).items()},
+                   kinds=tuple(a[2:] for a in det.get("command", []) if a.startswith("-F")) or ("ao",))
     runs = cr.run_inputs(build, [inp], jobs=1, timeout=TIME_BOUND.get(inp.cls, 30), hooks=dt.hooks_present(build),
                          stack_kb=STACK_KB.get(inp.cls))
     vs, _ = cr.validate(runs, chunk=10, parallel=1)
@@ -618,8 +619,12 @@ Strengthening (2026-10-04, evening): two input classes added, both judged by the
                               fault + 1 x fault:out-of-memory on call inputs (defect type-kw with an omitted defaulted
                               parameter in front), site comsg.c:comsgVDo
  Own mutations (worktree, C07_ONLY=macro,call = a subset of the quick tier):
-   MX1 macex.c:macApply       `n != abArgc(params)` -> `n > abArgc(params)` (too few macro arguments accepted)     see below
-   MX3 tfsat.c:tfSatAsMulti   `usedc < argc` -> `usedc > argc` (superfluous / unknown keyword arguments accepted)   see below
+   MX1 macex.c:macApply       `n != abArgc(params)` -> `n > abArgc(params)` (too few macro arguments accepted)
+                              CAUGHT: 1 184 x fault:program-fault (site absyn.c:abCopy) + 357 x fault:out-of-memory + 2 x no-diagnostic
+                              on macro inputs certified mac-argc
+   MX3 tfsat.c:tfSatAsMulti   `usedc < argc` -> `usedc > argc` (superfluous / unknown keyword arguments accepted)
+                              CAUGHT: 163 x "no-diagnostic on call input ...: exit 0, 0 error line(s) -- TLC: invariant
+                              InvalidDiagnosed" (defects kw-unknown, kw-twice, extra-pos, kw-dup-pos)
  New findings on the unchanged tree: the macro-function stack overflow (`macro f(x) == x(x); f(f)`; candidate patch
  hooks/candidate-C07-macro-function-depth.diff) and the segmentation violation in terror.c:terrorAssignOrSetBang for
  `(p: SingleInteger, q: String) := f()` with a two-valued f (hooks/candidate-C07-multi-assign-rhs-parts.diff); with both
